@@ -409,6 +409,13 @@ const INT_EDGES: &[i128] = &[
     i128::MIN + 1,
     i128::MAX,
     i128::MAX - 1,
+    // decimal texts that are also well-formed 16- / 32-digit hex ids (a number under `span_id` / `trace_id` must
+    // still be read as a number)
+    1_000_000_000_000_000,
+    1_234_567_890_123_456,
+    9_999_999_999_999_999,
+    10_000_000_000_000_000_000_000_000_000_000,
+    12_345_678_901_234_567_890_123_456_789_012,
 ];
 
 macro_rules! build_int {
